@@ -209,6 +209,11 @@ def mask_bits(rng, g, prob=None):
         elif g.kind == "profile" and g.size >= 5:
             m = [0] * g.n
             m[rng.randrange(1, g.size - 1)] = 1
+    if all(m):
+        # a grid without any unmasked node has no graph at all (no outlet, no basin): not an input
+        # of any property; a basin_graph built directly on it throws length_error from
+        # reserve(basins_count() - 1) - unreachable through update_routes(), which returns early
+        m[rng.randrange(g.n)] = 0
     return m
 
 
